@@ -19,7 +19,10 @@ import (
 	"encoding/hex"
 	"encoding/json"
 	"fmt"
+	"io/fs"
 	"os"
+	"path/filepath"
+	"sort"
 	"strconv"
 	"strings"
 	"sync/atomic"
@@ -69,7 +72,8 @@ const starBit = uint64(1) << 63
 
 type term struct {
 	Kind    string `json:"kind"` // star | q | single | range
-	Lo, Hi  int    `json:"lo,omitempty"`
+	Lo      int    `json:"lo"`
+	Hi      int    `json:"hi"`
 	Step    int    `json:"step"` // -1 = no step
 	LoTxt   string `json:"lo_txt,omitempty"`
 	HiTxt   string `json:"hi_txt,omitempty"`
@@ -146,6 +150,10 @@ type expect struct {
 	Refuse string `json:"refuse,omitempty"` // must be an error: class
 	Equiv  string `json:"equiv,omitempty"`  // must parse (same options) to the same schedule as this spec
 	Delay  *int64 `json:"delay,omitempty"`  // @every: expected Delay (ns)
+	// Zone: the text between the TZ=/CRON_TZ= prefix and the first space; the rest of the spec is
+	// well-formed. Accepted iff time.LoadLocation(Zone) succeeds, and then the schedule's location
+	// is that zone.
+	Zone *string `json:"zone,omitempty"`
 }
 
 type tcase struct {
@@ -172,6 +180,7 @@ type realOut struct {
 	delay int64
 	panic string
 	err   string
+	loc   *time.Location
 }
 
 var errKinds = []struct{ prefix, kind string }{
@@ -262,6 +271,7 @@ func runReal(c tcase) (o realOut) {
 		loc := "<nil>"
 		if s.Location != nil {
 			loc = s.Location.String()
+			o.loc = s.Location
 		}
 		o.canon = fmt.Sprintf("ok spec %d %d %d %d %d %d loc=%s", s.Second, s.Minute, s.Hour, s.Dom, s.Month, s.Dow, loc)
 	case cron.ConstantDelaySchedule:
@@ -604,7 +614,7 @@ type wholeExp struct {
 }
 
 func genWhole(r *lib.Rand, n int, out func(tcase, *wholeExp)) {
-	zones := []string{"", "UTC", "Asia/Tokyo", "America/New_York", "Local", "Europe/Berlin", "Australia/Lord_Howe"}
+	zones := append([]string{"", "UTC", "Asia/Tokyo", "America/New_York", "Local", "Europe/Berlin", "Australia/Lord_Howe"}, tzdataNames()...)
 	for k := 0; k < n; k++ {
 		os_ := stdOptSets[r.Intn(len(stdOptSets))]
 		mn, mx := fieldCount(os_.opts)
@@ -724,7 +734,9 @@ func genZones(out func(tcase)) {
 		}
 		for _, z := range bad {
 			if _, err := time.LoadLocation(z); err != nil && !strings.ContainsAny(z, " ") {
-				out(mk(std, pre+z+" * * * * *", "tz:bad", &expect{Place: -1, Refuse: "unknown-zone"}))
+				c := mk(std, pre+z+" * * * * *", "tz:bad", &expect{Place: -1, Refuse: "unknown-zone"})
+				out(c)
+				out(c) // twice in a row: a failure must not be remembered as a success
 			} else {
 				out(mk(std, pre+z+" * * * * *", "tz:odd", nil))
 			}
@@ -734,6 +746,100 @@ func genZones(out func(tcase)) {
 		out(mk(std, strings.ToLower(pre)+"UTC * * * * *", "tz:lowercase-prefix", &expect{Place: -1, Refuse: "wrong-field-count"}))
 		out(mk(std, " "+pre+"UTC * * * * *", "tz:leading-space", &expect{Place: -1, Refuse: "wrong-field-count"}))
 		out(mk(std, pre+"UTC "+pre+"UTC * * * * *", "tz:twice", &expect{Place: -1, Refuse: "wrong-field-count"}))
+	}
+}
+
+// zone names of the installed tzdata (every file LoadLocation accepts), plus a fixed list of the
+// single-component names so that the family does not depend on the host's zoneinfo directory.
+var singleZones = []string{"CET", "CST6CDT", "Cuba", "EET", "EST", "EST5EDT", "Egypt", "Eire", "Factory", "GB", "GB-Eire", "GMT", "GMT+0", "GMT-0", "GMT0",
+	"Greenwich", "HST", "Hongkong", "Iceland", "Iran", "Israel", "Jamaica", "Japan", "Kwajalein", "Libya", "MET", "MST", "MST7MDT", "NZ", "NZ-CHAT", "Navajo",
+	"PRC", "PST8PDT", "Poland", "Portugal", "ROC", "ROK", "Singapore", "Turkey", "UCT", "UTC", "Universal", "W-SU", "WET", "Zulu", "Local", "",
+	"Etc/UTC", "Etc/UCT", "Etc/Zulu", "Etc/GMT", "Etc/GMT+1", "Etc/GMT-14", "Etc/Greenwich", "Etc/Universal", "Canada/Central", "Chile/Continental",
+	"Cuba", "Brazil/East", "Mexico/General", "US/Central", "US/Eastern", "Zulu", "Europe/Zurich", "Asia/Tokyo", "America/New_York", "America/Toronto",
+	"America/Cancun", "America/Costa_Rica", "Atlantic/Reykjavik", "Antarctica/Troll", "Arctic/Longyearbyen", "Indian/Reunion", "Pacific/Tongatapu",
+	"Australia/Lord_Howe", "America/North_Dakota/New_Salem", "America/Argentina/ComodRivadavia"}
+
+func tzdataNames() []string {
+	seen := map[string]bool{}
+	var names, walked []string
+	for _, n := range singleZones {
+		if !seen[n] {
+			seen[n] = true
+			names = append(names, n)
+		}
+	}
+	root := "/usr/share/zoneinfo"
+	filepath.WalkDir(root, func(p string, d fs.DirEntry, err error) error {
+		if err != nil {
+			return nil
+		}
+		rel, _ := filepath.Rel(root, p)
+		if d.IsDir() {
+			if rel == "posix" || rel == "right" {
+				return filepath.SkipDir
+			}
+			return nil
+		}
+		if strings.ContainsAny(rel, ". ") || !utf8.ValidString(rel) || seen[rel] {
+			return nil
+		}
+		if _, err := time.LoadLocation(rel); err == nil {
+			seen[rel] = true
+			walked = append(walked, rel)
+		}
+		return nil
+	})
+	sort.Strings(walked)
+	return append(names, walked...)
+}
+
+// genZoneNames: TZ=<name>/CRON_TZ=<name> for every real zone name (all single-component names
+// included) and for synthetic unknown names built from the letters of the prefixes themselves;
+// every case is parsed TWICE in a row (a cache that remembers failures must not turn the second
+// parse of a bad zone into a success).
+func genZoneNames(r *lib.Rand, out func(tcase)) {
+	std := stdOptSets[0].opts
+	sec := stdOptSets[1].opts
+	emit := func(opts int, pre, z, rest, fam string) {
+		zz := z
+		c := mk(opts, pre+z+" "+rest, fam, &expect{Place: -1, Zone: &zz})
+		out(c)
+		out(c)
+	}
+	names := tzdataNames()
+	for _, pre := range []string{"TZ=", "CRON_TZ="} {
+		for _, z := range names {
+			emit(std, pre, z, "* * * * *", "tzname:tzdata")
+			emit(std, pre, z, "@hourly", "tzname:tzdata+descriptor")
+		}
+	}
+	alphabet := []string{"C", "R", "O", "N", "_", "T", "Z", "="}
+	synth := []string{"ZZZ", "CORN", "TZ", "NOT_A_ZONE", "=", "T", "Z", "C", "N", "_", "CRON_TZ", "CRON", "TZ=", "CRON_TZ=", "==", "ZONE", "NZZ", "ZNZ", "ROCK", "TROC",
+		"CETT", "TCET", "ZCET", "CCET", "NCuba", "TTurkey", "ZZulu", "OROC", "RROK", "NNZ", "TZNZ", "CRON_TZNZ", "TZ=NZ", "CRON_TZ=ROC", "=NZ", "=UTC", "_UTC", "TUTC", "ZUTC",
+		"UTCC", "UTCZ", "utc", "Utc", "cet", "nz", "Nz", "roc", "zulu", "ZULU", "CUBA", "cuba", "turkey", "EGYPT", "Etc/ZZZ", "Etc/", "Etc", "Etc/utc", "America/CORN", "NZ/CHAT",
+		"Europe", "America/Argentina", "Asia/Tokyo/x", "posix/UTC_", "Local ", "local", "LOCAL", "UTC0", "GMT+99", "Etc/GMT+15", "Etc/GMT-15", "EST5", "X", "Q"}
+	for i := 0; i < 200; i++ {
+		var sb strings.Builder
+		for k, n := 0, r.Range(1, 6); k < n; k++ {
+			sb.WriteString(alphabet[r.Intn(len(alphabet))])
+		}
+		w := sb.String()
+		synth = append(synth, w)
+		// a real single-component zone wrapped in prefix letters (TrimLeft/TrimRight-style slips)
+		z := singleZones[r.Intn(len(singleZones))]
+		if z != "" {
+			synth = append(synth, w+z, z+w)
+		}
+	}
+	for _, pre := range []string{"TZ=", "CRON_TZ="} {
+		for _, z := range synth {
+			if strings.ContainsAny(z, " ") {
+				continue // the name ends at the first space: a different case
+			}
+			emit(std, pre, z, "* * * * *", "tzname:synthetic")
+			emit(sec, pre, z, "0 * * * * *", "tzname:synthetic")
+			emit(std, pre, z, "@daily", "tzname:synthetic+descriptor")
+		}
 	}
 }
 
@@ -936,6 +1042,20 @@ func monitor(res *lib.Result, c tcase, o realOut, w *wholeExp) {
 	if e == nil {
 		return
 	}
+	if e.Zone != nil {
+		want, lerr := time.LoadLocation(*e.Zone)
+		switch {
+		case lerr != nil && o.ok:
+			res.Violate("accepts-unknown-zone", fmt.Sprintf("%s: time.LoadLocation(%q) fails (%v) but the spec was accepted: %s", c.SpecQ, *e.Zone, lerr, o.canon), c)
+		case lerr == nil && !o.ok:
+			res.Violate("refuses-known-zone", fmt.Sprintf("%s: %q is a loadable zone but the spec was refused: %s", c.SpecQ, *e.Zone, o.err), c)
+		case lerr == nil && o.ok && !o.every:
+			if o.loc == nil || o.loc.String() != want.String() || !sameZone(o.loc, want) {
+				res.Violate("tz-prefix-wrong-zone", fmt.Sprintf("%s: schedule location is %v, the prefix names %q (= %v)", c.SpecQ, o.loc, *e.Zone, want), c)
+			}
+		}
+		return
+	}
 	if e.Refuse != "" {
 		if o.ok {
 			res.Violate("accepts-"+e.Refuse, fmt.Sprintf("%s (options %d) must be refused (%s) but got %s", c.SpecQ, c.Opts, e.Refuse, o.canon), c)
@@ -971,6 +1091,18 @@ func monitor(res *lib.Result, c tcase, o realOut, w *wholeExp) {
 			res.Violate("refuses-well-formed", fmt.Sprintf("documented form %s refused: %s", c.SpecQ, o.err), c)
 		}
 	}
+}
+
+// sameZone compares the wall clock of two locations at a few instants (both hemispheres' DST).
+func sameZone(a, b *time.Location) bool {
+	for _, t := range []time.Time{time.Date(2024, 1, 15, 12, 0, 0, 0, time.UTC), time.Date(2024, 7, 15, 12, 0, 0, 0, time.UTC), time.Date(1995, 3, 1, 0, 0, 0, 0, time.UTC)} {
+		_, oa := t.In(a).Zone()
+		_, ob := t.In(b).Zone()
+		if oa != ob {
+			return false
+		}
+	}
+	return true
 }
 
 func zoneOK(spec string) bool {
@@ -1030,6 +1162,7 @@ func main() {
 		}
 		genRefusals(add)
 		genZones(add)
+		genZoneNames(r.Fork(), add)
 		genDescriptors(r.Fork(), add)
 		genOptionSets(r.Fork(), thorough || f.Search, add)
 		genLists(r.Fork(), 20000*mult, add)
